@@ -32,8 +32,13 @@ func (p *Path) bitAtom(bit int64) tri {
 		if !ok || and.Op != token.AND {
 			continue
 		}
-		k, ok := constInt(and.Y)
-		if !ok || k != bit || !isLoad(Val{V: and.X}, "decor.WC", "C") {
+		// operands as the path resolves them (a helper `hasBit(conf, bit)` receives both as parameters)
+		ax, ay := p.R(Val{and.X, c.X.F, c.X.E}), p.R(Val{and.Y, c.X.F, c.X.E})
+		if _, isK := constInt(ax.V); isK {
+			ax, ay = ay, ax
+		}
+		k, ok := constInt(ay.V)
+		if !ok || k != bit || !isLoad(ax, "decor.WC", "C") {
 			continue
 		}
 		if c.Op == token.NEQ {
@@ -1145,28 +1150,14 @@ func ruleInitChannel(w *World, r *Report, pfx string) {
 		r.Unresolved("anchor", "decor.DSyncWidth", "constant not found")
 		return
 	}
-	// atom: (C & DSyncWidth) != 0
-	isSyncTest := func(v Val) bool {
-		and, ok := v.V.(*ssa.BinOp)
-		if !ok || and.Op != token.AND {
-			return false
-		}
-		k, okK := constInt(and.Y)
-		x := and.X
-		if !okK {
-			k, okK = constInt(and.X)
-			x = and.Y
-		}
-		return okK && k == syncBit && isLoad(Val{V: x}, "decor.WC", "C")
-	}
 	bad := ""
 	sawSync, sawPlain := false, false
 	nP, over := w.enumPaths(fn, pathOpts{InlineDepth: 2, Inline: w.helperInline(fn)}, func(p *Path) {
 		if p.Exit != "return" || bad != "" {
 			return
 		}
-		on := p.hasCmp(-1, token.NEQ, isSyncTest, isConstInt(0))
-		off := p.hasCmp(-1, token.EQL, isSyncTest, isConstInt(0))
+		on := p.bitAtom(syncBit) == triTrue
+		off := p.bitAtom(syncBit) == triFalse
 		st := p.storesTo("decor.WC", "wsync")
 		switch {
 		case on:
